@@ -36,6 +36,11 @@ pub enum SerVal {
     Struct(String, Vec<(String, SerVal)>),
     StructVariant(String, String, Vec<(String, SerVal)>),
     Fail(String),
+    /// a map handed over with `serialize_key` / `serialize_value` instead of `serialize_entry` (same data model kind)
+    MapKV(Vec<(SerVal, SerVal)>),
+    /// a type whose `Serialize` asks `is_human_readable()` (std's IP / socket addresses, uuid, …): the first form for
+    /// human-readable formats — which `ValueSerializer` is, like serde_json — the second for compact ones
+    HumanReadable(Box<SerVal>, Box<SerVal>),
 }
 
 struct Bytes<'a>(&'a [u8]);
@@ -122,6 +127,21 @@ impl Serialize for SerVal {
                 q.end()
             }
             Fail(msg) => Err(serde::ser::Error::custom(msg)),
+            MapKV(kvs) => {
+                let mut q = s.serialize_map(Option::Some(kvs.len()))?;
+                for (k, v) in kvs {
+                    q.serialize_key(k)?;
+                    q.serialize_value(v)?;
+                }
+                q.end()
+            }
+            HumanReadable(a, b) => {
+                if s.is_human_readable() {
+                    a.serialize(s)
+                } else {
+                    b.serialize(s)
+                }
+            }
         }
     }
 }
@@ -167,6 +187,9 @@ pub fn enc_serval(v: &SerVal) -> String {
         Struct(n, fs) => format!("(sstruct {}{})", hex(n), fields(fs)),
         StructVariant(n, va, fs) => format!("(sstructvariant {} {}{})", hex(n), hex(va), fields(fs)),
         Fail(m) => format!("(sfail {})", hex(m)),
+        // the model knows one map kind and a human-readable serializer
+        MapKV(kvs) => enc_serval(&Map(kvs.clone())),
+        HumanReadable(a, _) => enc_serval(a),
     }
 }
 
@@ -246,7 +269,8 @@ pub fn json_representable(v: &SerVal) -> bool {
         F64(x) => x.is_finite(),
         Some(v) | NewtypeStruct(_, v) | NewtypeVariant(_, _, v) => json_representable(v),
         Seq(xs) | Tuple(xs) | TupleStruct(_, xs) | TupleVariant(_, _, xs) => xs.iter().all(json_representable),
-        Map(kvs) => kvs.iter().all(|(k, v)| json_representable(k) && json_representable(v)),
+        Map(kvs) | MapKV(kvs) => kvs.iter().all(|(k, v)| json_representable(k) && json_representable(v)),
+        HumanReadable(a, _) => json_representable(a),
         Struct(_, fs) | StructVariant(_, _, fs) => fs.iter().all(|(_, v)| json_representable(v)),
         _ => true,
     }
@@ -371,6 +395,27 @@ pub fn designed() -> Vec<SerVal> {
             }
         }
     }
+    // large unsorted maps / structs with a repeated key at every kind of position: the last occurrence wins at any size
+    for n in [8usize, 21, 25, 40, 100, 300] {
+        let order: Vec<usize> = (0..n).map(|i| (i * 7 + 3) % n).collect();
+        for dup_at in [0usize, 1, n / 2, n - 2, n - 1] {
+            let mut kvs: Vec<(String, SerVal)> = order.iter().map(|i| (format!("k{:03}", i), U32(*i as u32))).collect();
+            let dup_key = kvs[dup_at].0.clone();
+            // the duplicate is emitted first and last, around the scattered rest
+            kvs.insert(0, (dup_key.clone(), U32(7_000_000)));
+            kvs.push((dup_key.clone(), U32(9_000_000 + dup_at as u32)));
+            let as_map: Vec<(SerVal, SerVal)> = kvs.iter().map(|(k, v)| (Str(k.clone()), v.clone())).collect();
+            out.push(Map(as_map.clone()));
+            out.push(MapKV(as_map));
+            out.push(Struct("S".into(), kvs.clone()));
+            out.push(StructVariant("E".into(), "V".into(), kvs));
+        }
+    }
+    // types that branch on `is_human_readable` (the shapes std's Ipv4Addr / SocketAddr / uuid produce)
+    out.push(HumanReadable(Box::new(Str("192.168.1.10".into())), Box::new(Tuple(vec![U8(192), U8(168), U8(1), U8(10)]))));
+    out.push(HumanReadable(Box::new(Str("10.0.0.1:80".into())), Box::new(Tuple(vec![Tuple(vec![U8(10), U8(0), U8(0), U8(1)]), U16(80)]))));
+    out.push(Struct("Conn".into(), vec![("peer".into(), HumanReadable(Box::new(Str("::1".into())), Box::new(NewtypeVariant("IpAddr".into(), "V6".into(), Box::new(Bytes(vec![0; 16])))))), ("port".into(), U16(443))]));
+    out.push(Map(vec![(HumanReadable(Box::new(Str("k".into())), Box::new(U8(1))), HumanReadable(Box::new(U8(1)), Box::new(Str("x".into()))))]));
     // long strings, keys and collections (nothing is abridged)
     out.push(Str("é日😀".repeat(400)));
     out.push(Map(vec![(Str("k".repeat(300)), Str("v".repeat(300)))]));
@@ -447,6 +492,36 @@ pub fn run(rep: &mut Report, driver: &str, workers: usize, thorough: bool, seed:
                 }
             }
         }
+    }
+    // real library types whose `Serialize` consults `is_human_readable()`: the image must be serde_json's
+    {
+        use std::net::{IpAddr, Ipv4Addr, Ipv6Addr, SocketAddr};
+        fn cmp<T: Serialize + std::fmt::Debug>(x: &T, rep: &mut Report, sr: &mut StreamReport) {
+            sr.count(&format!("std {:?}", x), true);
+            sr.hist("top_kind", "std-type");
+            let mine = catch_unwind(AssertUnwindSafe(|| x.serialize(ValueSerializer)));
+            let j = serde_json::to_value(x);
+            let ok = match (&mine, &j) {
+                (Ok(Ok(v)), Ok(j)) => value_to_json(v).as_ref() == Option::Some(j),
+                _ => false,
+            };
+            if !ok {
+                rep.add_finding(Finding { kind: "impl-violates-property".into(), stream: "serde-data-model".into(), case: format!("std\t{:?}", x), human: format!("{:?}", x), impl_out: format!("{:?}", mine.as_ref().map(|r| r.as_ref().map(enc_value).map_err(|e| e.to_string())).map_err(|_| "PANIC")), model_out: format!("{:?}", j.as_ref().map(|j| j.to_string()).map_err(|e| e.to_string())), predicate: "on JSON-representable data the image coincides with serde_json's".into(), signature: "C13 json std-type".into() });
+            }
+        }
+        let v4 = Ipv4Addr::new(192, 168, 1, 10);
+        let v6 = Ipv6Addr::new(0x2001, 0xdb8, 0, 0, 0, 0, 0, 1);
+        cmp(&v4, rep, &mut sr);
+        cmp(&v6, rep, &mut sr);
+        cmp(&IpAddr::V4(v4), rep, &mut sr);
+        cmp(&IpAddr::V6(v6), rep, &mut sr);
+        cmp(&SocketAddr::new(IpAddr::V4(v4), 8080), rep, &mut sr);
+        cmp(&vec![(String::from("peer"), IpAddr::V6(v6))].into_iter().collect::<std::collections::BTreeMap<_, _>>(), rep, &mut sr);
+        cmp(&std::time::Duration::new(5, 7), rep, &mut sr);
+        cmp(&std::path::PathBuf::from("/a/b"), rep, &mut sr);
+        cmp(&(1u8..4u8), rep, &mut sr);
+        cmp(&std::num::NonZeroU8::new(3), rep, &mut sr);
+        cmp(&std::cmp::Reverse(5i32), rep, &mut sr);
     }
     sr.hist("json", "compared_with_serde_json");
     *sr.histograms.get_mut("json").unwrap().get_mut("compared_with_serde_json").unwrap() = json_compared;
